@@ -33,7 +33,7 @@ _STR_METHODS = frozenset({'startswith', 'endswith', 'lower', 'upper', 'strip', '
                           'replace', 'find', 'rfind', 'isdigit', 'join', 'format', 'removeprefix', 'removesuffix', 'title', 'capitalize'})
 
 
-_PURE_BUILTINS = {'dict': dict, 'list': list, 'tuple': tuple, 'set': set, 'sorted': sorted, 'range': range, 'enumerate': enumerate, 'zip': zip, 'reversed': reversed,
+_PURE_BUILTINS = {'next': next, 'iter': iter, 'dict': dict, 'list': list, 'tuple': tuple, 'set': set, 'sorted': sorted, 'range': range, 'enumerate': enumerate, 'zip': zip, 'reversed': reversed,
                   'min': min, 'max': max, 'abs': abs, 'sum': sum, 'len': len, 'str': str, 'int': int, 'bool': bool, 'repr': repr}
 
 
@@ -51,6 +51,8 @@ def _concrete(v, depth=0):
     if isinstance(v, (list, set)):
         return True
     if isinstance(v, dict):
+        return True
+    if type(v).__name__ in ('list_iterator', 'dict_keyiterator', 'dict_valueiterator', 'dict_itemiterator', 'tuple_iterator', 'set_iterator', 'dict_keys', 'dict_values', 'dict_items'):
         return True
     if isinstance(v, tuple):
         return not (v and isinstance(v[0], str) and v[0] in ('class', 'ext', 'kind', 'closure', 'unbound', 'classayns', 'super', 'super_ayns', 'dictmethod', 'listmethod', 'strmethod', 'builtinmethod', 'objdictmethod', 'noop', 'dictdisplay'))
@@ -324,6 +326,17 @@ class FDE:
                     raise
                 else:
                     self._run(s.finalbody, env, fi)
+            elif isinstance(s, ast.With):
+                for it in s.items:
+                    v = self._ev(it.context_expr, env, fi)
+                    self.effects.append(('with_enter', unparse(it.context_expr)))
+                    if it.optional_vars is not None:
+                        self._assign(it.optional_vars, v, env, fi)
+                try:
+                    self._run(s.body, env, fi)
+                finally:
+                    for it in s.items:
+                        self.effects.append(('with_exit', unparse(it.context_expr)))
             elif isinstance(s, ast.Pass):
                 pass
             elif isinstance(s, (ast.ImportFrom, ast.Import)):
@@ -487,6 +500,8 @@ class FDE:
             mro = self.repo.mro(base.cls)
             if attr in ('values', 'items', 'keys', 'copy', 'index', 'count') and ('dict' in mro or 'list' in mro):
                 return ('builtinmethod', base, attr)
+            if attr in self.stubs:
+                return Bound(base, None, attr, False)       # method of an external base class, stubbed by name
             raise Unsupported('field %s of %r (%s) not modelled' % (attr, base, base.cls))
         if isinstance(base, ObjDict) and attr in ('update', 'copy'):
             return ('objdictmethod', base, attr)
@@ -495,7 +510,7 @@ class FDE:
         import re as _re
         if isinstance(base, (_re.Pattern, _re.Match)) and not attr.startswith('_'):
             return ('pymethod', base, attr)
-        if isinstance(base, str) and attr in _STR_METHODS:
+        if isinstance(base, str) and (attr in _STR_METHODS or (not attr.startswith('_') and hasattr(str, attr))):
             return ('strmethod', base, attr)
         if isinstance(base, (list, set)) and not attr.startswith('_') and hasattr(base, attr):
             return ('listmethod', base, attr)
@@ -515,12 +530,18 @@ class FDE:
                 return ('ext', self.externals[e.id])
             if fi is not None and e.id in fi.module.globals and e.id not in self.repo.classes:
                 g = fi.module.globals[e.id]
+                if isinstance(g, ast.Call) and unparse(g.func) == 're.compile' and g.args and all(isinstance(a, ast.Constant) for a in g.args) and not g.keywords:
+                    import re as _re
+                    key = ('global', fi.module.relpath, e.id)
+                    if key not in self.class_objs:
+                        self.class_objs[key] = _re.compile(*[a.value for a in g.args])
+                    return self.class_objs[key]
                 if isinstance(g, (ast.Dict, ast.List, ast.Tuple, ast.Constant, ast.Set)):
                     key = ('global', fi.module.relpath, e.id)
                     if key not in self.class_objs:
                         self.class_objs[key] = self._ev(g, {}, fi)
                     return self.class_objs[key]
-            if e.id in ('list', 'dict', 'tuple', 'str', 'int'):
+            if e.id in ('list', 'dict', 'tuple', 'str', 'int', 'bytes', 'float', 'bool', 'set'):
                 return ('class', e.id)
             raise Unsupported('free name %s in %s' % (e.id, fi.qualname if fi else '?'))
         if isinstance(e, ast.Attribute):
@@ -588,6 +609,14 @@ class FDE:
                         parts.append(('spread', self._ev(v, env, fi)))
                     else:
                         parts.append(('item', self._ev(k, env, fi), self._ev(v, env, fi)))
+                if all(pt[0] == 'item' or isinstance(pt[1], dict) for pt in parts):
+                    out_ = {}
+                    for pt in parts:
+                        if pt[0] == 'spread':
+                            out_.update(pt[1])
+                        else:
+                            out_[pt[1]] = pt[2]
+                    return out_
                 return ('dictdisplay', tuple(parts))
             return {self._ev(k, env, fi): self._ev(v, env, fi) for k, v in zip(e.keys, e.values)}
         if isinstance(e, (ast.Tuple, ast.List)):
@@ -765,6 +794,14 @@ class FDE:
                                for x in cands)
                 if isinstance(o, Obj) and isinstance(c, tuple) and c[0] == 'class':
                     return self.repo.is_subclass(o.cls, c[1])
+                if isinstance(o, Obj) and cands and all(isinstance(x, tuple) and len(x) == 2 and x[0] == 'ext' and isinstance(x[1], type) for x in cands):
+                    # a node object against a stdlib ABC: decided by the built-in base of its class (dict / list / tuple / str ...)
+                    mro_ = self.repo.mro(o.cls) if o.cls in self.repo.classes else []
+                    bases = [b for b in (dict, list, tuple, str, bytes, int, float, set) if b.__name__ in mro_]
+                    return any(issubclass(b, x[1]) for b in bases for x in cands)
+                if (o is None or isinstance(o, (int, str, float, bytes, list, dict, tuple, set))) and not (isinstance(o, tuple) and o and isinstance(o[0], str) and o[0] in ('class', 'ext', 'kind')) \
+                        and cands and all(isinstance(x, tuple) and len(x) == 2 and x[0] == 'ext' and isinstance(x[1], type) for x in cands):
+                    return isinstance(o, tuple(x[1] for x in cands))
                 _B = {'int': int, 'str': str, 'bool': bool, 'float': float, 'list': list, 'dict': dict, 'tuple': tuple, 'bytes': bytes, 'set': set}
                 if (o is None or isinstance(o, (int, str, float, bytes, list, dict, tuple, set))) and not (isinstance(o, tuple) and o and o[0] in ('class', 'ext', 'kind')) \
                         and all(isinstance(x, tuple) and len(x) == 2 and x[0] == 'class' for x in cands):
@@ -813,6 +850,9 @@ class FDE:
             targets = self.repo.resolve_call(e, fi) if fi is not None else []
             if targets and n not in self.stubs:
                 return self._invoke(targets[0], args, kwargs)
+            if targets and n in self.stubs:
+                self.effects.append(('call', n, None, tuple(args), tuple(sorted(kwargs.items(), key=lambda kv: kv[0]))))
+                return self.stub(n, None, args, kwargs) if self.stub is not None else None
             if n in self.repo.classes and n not in env:
                 # construction of a node class: recorded; wrapping an existing node object goes through the metaclass
                 self.effects.append(('instantiate', n, tuple(args), tuple(sorted(kwargs.items(), key=lambda kv: kv[0]))))
@@ -837,12 +877,12 @@ class FDE:
                     self.effects.append(('call', '__dict__.update', target[1].obj, (args[0].obj,), ()))
                     return None
                 raise Unsupported('__dict__.%s' % target[2])
-            if isinstance(target, Bound) and target.fi.is_classmethod:
+            if isinstance(target, Bound) and target.fi is not None and target.fi.is_classmethod:
                 if target.name not in self.stubs:
                     return self._invoke(target.fi, [('class', target.recv.cls)] + args, kwargs)
             if isinstance(target, Bound):
                 name = target.name
-                q = target.fi.qualname
+                q = target.fi.qualname if target.fi is not None else name
                 if name not in self.stubs and q not in self.stubs:
                     return self._invoke(target.fi, [target.recv] + args, kwargs)
                 self.effects.append(('call', name, target.recv, tuple(args), tuple(sorted(kwargs.items(), key=lambda kv: kv[0]))))
@@ -878,6 +918,9 @@ class FDE:
                     return list(d.values())
             if isinstance(target, tuple) and target and target[0] == 'noop':
                 return None
+            import types as _types
+            if isinstance(target, (_types.FunctionType, _types.LambdaType)) and getattr(target, '_fde_ok', False):
+                return target(*args, **kwargs)
             if isinstance(target, tuple) and target and target[0] == 'pymethod':
                 # stdlib regular-expression objects: evaluated by the stdlib itself on concrete strings
                 if not all(a is None or isinstance(a, (str, int)) for a in args):
